@@ -90,6 +90,9 @@ type Machine struct {
 	params         map[string]int
 	curFrame       *frame
 	pinned         map[string]any
+	known          map[uint64][]*Term
+	knownHits      int
+	fixedOrderTypes []string
 	inputNames     map[string]bool
 
 	// scheduler
@@ -162,7 +165,46 @@ func (m *Machine) assume(c *Term) {
 		return
 	}
 	m.pc = append(m.pc, c)
+	m.addKnown(c)
 	m.solver.Assert(c)
+}
+
+// addKnown records asserted literals so that repeated branch conditions need no solver call.
+func (m *Machine) addKnown(c *Term) {
+	if c.Op == "and" {
+		for _, a := range c.Args {
+			m.addKnown(a)
+		}
+		return
+	}
+	if c.size > 5000 {
+		return
+	}
+	if m.known == nil {
+		m.known = map[uint64][]*Term{}
+	}
+	h := c.Hash()
+	m.known[h] = append(m.known[h], c)
+}
+
+func (m *Machine) isKnown(c *Term) bool {
+	if c.size > 5000 {
+		return false
+	}
+	if c.Op == "and" {
+		for _, a := range c.Args {
+			if !m.isKnown(a) {
+				return false
+			}
+		}
+		return true
+	}
+	for _, k := range m.known[c.Hash()] {
+		if structEq(k, c) {
+			return true
+		}
+	}
+	return false
 }
 
 func (m *Machine) branch(c *Term) bool {
@@ -170,6 +212,14 @@ func (m *Machine) branch(c *Term) bool {
 		return c.IsTrue()
 	}
 	v := m.decideLazy("br", func() []int {
+		if m.isKnown(c) {
+			m.knownHits++
+			return []int{1}
+		}
+		if m.isKnown(Not(c)) {
+			m.knownHits++
+			return []int{0}
+		}
 		rt := m.solver.CheckWith(c, false)
 		if rt == Unsat {
 			return []int{0}
